@@ -9,13 +9,13 @@ package rfc8888
 //
 // Property C08.
 //
-//@ # arrival time offset field: 0x1FFF for arrivals after the report, 0x1FFE when too large, else 1/1024 s units (float conversion uninterpreted)
+//@ # arrival time offset field: 0x1FFF for arrivals after the report, 0x1FFE when floor(1024 x age) exceeds 0x1FFD, else 1/1024 s units (float conversion uninterpreted)
 //@ func getArrivalTimeOffset
 //@   functional
 //@   modifies nothing
 //@   ensures after_report: base.Before(arrival) ==> result == 0x1FFF
-//@   ensures saturates: !base.Before(arrival) && base.Sub(arrival).Seconds() * 1024.0 > 8189.0 ==> result == 0x1FFE
-//@   ensures value: !base.Before(arrival) && !(base.Sub(arrival).Seconds() * 1024.0 > 8189.0) ==> result == uint16(base.Sub(arrival).Seconds() * 1024.0)
+//@   ensures saturates: !base.Before(arrival) && base.Sub(arrival).Seconds() * 1024.0 >= 8190.0 ==> result == 0x1FFE
+//@   ensures value: !base.Before(arrival) && !(base.Sub(arrival).Seconds() * 1024.0 >= 8190.0) ==> result == uint16(base.Sub(arrival).Seconds() * 1024.0)
 //@
 //@ # the log holds exactly the first arrival of every sequence number in [next, last] that arrived and is not yet acknowledged
 //@ pred logInv(l *streamLog) := l.log != nil && (l.init ==> l.sequence.init) && (!l.init ==> forall k int64 :: !has(l.log, k)) && (l.sequence.init ==> l.sequence.lastUnwrapped >= 0)
